@@ -73,6 +73,8 @@ def patch_variants(only: str | None):
     out = []
     for d in sorted((base / "seeded").glob("*/meta.json")):
         m = json.loads(d.read_text())
+        if m.get("stale"):
+            continue  # written against code that a later repair replaced; kept as history (see its meta.json)
         props = [p for p in m.get("caught_by", []) if only is None or p == only]
         if props:
             out.append({"id": "seed:" + m["seed_id"], "kind": "break", "patch": str(d.parent / "patch.diff"), "props": props if only else props[:1]})
